@@ -112,15 +112,15 @@ pub fn run(tier: Tier, rep: &mut Report) -> (String, String) {
     let mut r0 = Report::default();
     conversions(&mut r0, tier);
     rep.merge(r0);
-    let n = tier.pick(5, 6, 3);
+    let n = tier.pick(5, 6, 2);
     let strings = strings_over(&["a", "ñ", "€", "😀"], n);
     rep.merge(par_each(&strings, th, |s, r| {
         one_string(r, s, None, &None);
         r.sample(|| format!("all next/next_back histories of chars/char_indices (+rev, rev.rev) on {s:?}"));
     }));
     // every char of the boundary-complete set in three contexts (alone, between ASCII, doubled, after a 4-byte char)
-    let chars = char_set(tier);
-    let ctx: Vec<String> = chars.iter().flat_map(|c| [c.to_string(), format!("a{c}b"), format!("{c}{c}"), format!("😀{c}ñ")]).collect();
+    let chars: Vec<char> = if tier == Tier::Miri { char_set(tier).into_iter().step_by(12).collect() } else { char_set(tier) };
+    let ctx: Vec<String> = chars.iter().flat_map(|c| if tier == Tier::Miri { vec![format!("a{c}b")] } else { vec![c.to_string(), format!("a{c}b"), format!("{c}{c}"), format!("😀{c}ñ")] }).collect();
     rep.merge(par_each(&ctx, th, |s, r| one_string(r, s, None, &None)));
     (
         "E1: state = one char / one u32; transition = encode_utf8 (+as_bytes/as_str) or from_u32, compared with char::encode_utf8 / char::from_u32. E2: state = (iterator kind, string, history of next/next_back); every yielded (offset,char) and as_str() (by address) compared with str::chars / char_indices; non-trivial = from_u32 on a non-scalar value; strings with >= 2 chars and at least one multi-byte char".into(),
